@@ -11,9 +11,9 @@ namespace xc {
 #undef CBlockIndex
 #undef CBlockIndex_s
 }
-extern "C" int xc_AcceptBlock_unrequested(xc::xc_CBlockIndex* pindex, bool fRequested, const xc::xc_CBlockIndex* tip, int active_height, arith_uint256 min_work);
+extern "C" int xc_AcceptBlock_unrequested(xc::xc_CBlockIndex* pindex, bool fRequested, bool min_pow_checked, const xc::xc_CBlockIndex* tip, int active_height, arith_uint256 min_work);
 
-static int orig_frag(CBlockIndex* pindex, bool fRequested, CBlockIndex* tip_, int ah, arith_uint256 mw)
+static int orig_frag(CBlockIndex* pindex, bool fRequested, bool min_pow_checked, CBlockIndex* tip_, int ah, arith_uint256 mw)
 {
     auto ActiveTip = [&] { return tip_; }; auto ActiveHeight = [&] { return ah; }; auto MinimumChainWork = [&] { return mw; };
 #include "orig_AcceptBlock_unrequested.inc"
@@ -35,15 +35,15 @@ int main(int argc, char** argv)
         int ah = has_tip ? tip.nHeight : -1;
         b.nHeight = (int)std::max<int64_t>(0, (int64_t)ah + 288 + (int64_t)rng.below(7) - 3 - (rng.below(4) == 0 ? (int64_t)rng.below(400) : 0));
         b.nChainWork = rw(rng, &tip.nChainWork); arith_uint256 mw = rw(rng, &b.nChainWork);
-        b.nStatus = rng.below(4) == 0 ? 8u | (uint32_t)rng.below(128) : (uint32_t)rng.below(128) & ~8u; b.nTx = rng.below(3) == 0 ? (unsigned)rng.below(3000) : 0; bool req = rng.below(3) == 0;
+        b.nStatus = rng.below(4) == 0 ? 8u | (uint32_t)rng.below(128) : (uint32_t)rng.below(128) & ~8u; b.nTx = rng.below(3) == 0 ? (unsigned)rng.below(3000) : 0; bool req = rng.below(3) == 0; bool mpc = rng.below(2);
         uint32_t st0 = b.nStatus;
-        int real = orig_frag(&b, req, has_tip ? &tip : nullptr, ah, mw);
+        int real = orig_frag(&b, req, mpc, has_tip ? &tip : nullptr, ah, mw);
         xc::xc_CBlockIndex xb{}, xt{}; xb.nHeight = b.nHeight; xb.nStatus = st0; xb.nTx = b.nTx; xb.nChainWork = b.nChainWork; xt.nHeight = tip.nHeight; xt.nChainWork = tip.nChainWork;
-        int xr = xc_AcceptBlock_unrequested(&xb, req, has_tip ? &xt : nullptr, ah, mw);
+        int xr = xc_AcceptBlock_unrequested(&xb, req, mpc, has_tip ? &xt : nullptr, ah, mw);
         int want = oracle(b, req, has_tip ? &tip : nullptr, ah, mw);
         rv::g_stats.inputs++;
         if (real != xr) { rv::g_stats.disagreements++; std::printf("DISAGREE real=%d extractedC=%d\n", real, xr); }
-        if (real != want || b.nStatus != st0) { rv::g_stats.real_violations++; if (rv::g_stats.real_violations <= 5) std::printf("REAL-VIOLATION AcceptBlock fragment: requested=%d have_data=%d nTx=%u height=%d active_height=%d has_tip=%d work%stip_work work%smin_work -> %s, statement says %s%s\n", req, !!(st0 & 8), b.nTx, b.nHeight, ah, has_tip, b.nChainWork >= tip.nChainWork ? ">=" : "<", b.nChainWork >= mw ? ">=" : "<", real == 2 ? "store" : "drop", want == 2 ? "store" : "drop", b.nStatus != st0 ? " (status modified!)" : ""); }
+        if (real != want || b.nStatus != st0) { rv::g_stats.real_violations++; if (rv::g_stats.real_violations <= 5) std::printf("REAL-VIOLATION AcceptBlock fragment: requested=%d min_pow_checked=%d have_data=%d nTx=%u height=%d active_height=%d has_tip=%d work%stip_work work%smin_work -> %s, statement says %s%s\n", req, mpc, !!(st0 & 8), b.nTx, b.nHeight, ah, has_tip, b.nChainWork >= tip.nChainWork ? ">=" : "<", b.nChainWork >= mw ? ">=" : "<", real == 2 ? "store" : "drop", want == 2 ? "store" : "drop", b.nStatus != st0 ? " (status modified!)" : ""); }
     }
     rv::report();
     return rv::g_stats.real_violations ? 1 : (rv::g_stats.disagreements ? 3 : 0);
